@@ -24,6 +24,7 @@ type PoolCfg struct {
 	Open              bool   // a slice of a longer run: the pool is not closed at its end
 	QCap              int    // capacity of the pool's task queue as read off the pool object (-1: unknown)
 	Early             bool   // Close is called without Wait after the last round's submissions
+	SelfWait          bool   // every submitter calls Wait itself after its submissions (overlapping Waits)
 }
 
 var (
@@ -61,14 +62,14 @@ func queueCap(p *flyt.WorkerPool) (c int) {
 }
 
 func parsePoolCfg(m map[string]any) PoolCfg {
-	c := PoolCfg{W: asInt(m["W"]), S: asInt(m["S"]), Per: asInt(m["per"]), Rounds: asInt(m["rounds"]), Gated: asBool(m["gated"]), Sched: asStr(m["sched"]), Open: asBool(m["open"]), QCap: -1, Early: asBool(m["early"])}
+	c := PoolCfg{W: asInt(m["W"]), S: asInt(m["S"]), Per: asInt(m["per"]), Rounds: asInt(m["rounds"]), Gated: asBool(m["gated"]), Sched: asStr(m["sched"]), Open: asBool(m["open"]), QCap: -1, Early: asBool(m["early"]), SelfWait: asBool(m["selfwait"])}
 	if c.Sched == "" {
 		c.Sched = "script"
 	}
 	return c
 }
 func (c PoolCfg) toJSON() map[string]any {
-	return map[string]any{"W": c.W, "S": c.S, "per": c.Per, "rounds": c.Rounds, "gated": c.Gated, "sched": c.Sched, "open": c.Open, "qcap": poolQCap(c.W), "early": c.Early}
+	return map[string]any{"W": c.W, "S": c.S, "per": c.Per, "rounds": c.Rounds, "gated": c.Gated, "sched": c.Sched, "open": c.Open, "qcap": poolQCap(c.W), "early": c.Early, "selfwait": c.SelfWait}
 }
 
 type poolStep struct {
@@ -84,22 +85,36 @@ type evKey struct {
 }
 
 type poolRun struct {
-	cfg      PoolCfg
-	mu       sync.Mutex
-	events   []Event
-	seen     map[evKey]bool // task events observed so far
-	expKeys  []evKey        // task events of the expected history, in order (zero value: other event)
-	verified int            // expKeys[0:verified] have all been observed
-	gids     map[int64]int
-	parked   map[int]chan struct{} // task -> gate
-	subGate  []chan struct{}       // per submitter: permission for the next Submit
-	notify   chan struct{}
-	done     chan struct{}
-	rng      *rand.Rand
-	stuck    bool
-	barrier  chan struct{}
-	barOnce  sync.Once
-	nStarted int
+	cfg         PoolCfg
+	mu          sync.Mutex
+	events      []Event
+	seen        map[evKey]bool // task events observed so far
+	expKeys     []evKey        // task events of the expected history, in order (zero value: other event)
+	verified    int            // expKeys[0:verified] have all been observed
+	gids        map[int64]int
+	parked      map[int]chan struct{} // task -> gate
+	subGate     []chan struct{}       // per submitter: permission for the next Submit
+	notify      chan struct{}
+	done        chan struct{}
+	rng         *rand.Rand
+	stuck       bool
+	barrier     chan struct{}
+	barOnce     sync.Once
+	nStarted    int
+	selfWaiting int32 // submitters that have called Wait in the current round
+}
+
+// curRound: the round in progress (1-based), from the waitret events of the main goroutine logged so far
+func (p *poolRun) curRound() int {
+	p.mu.Lock()
+	defer p.mu.Unlock()
+	r := 1
+	for _, e := range p.events {
+		if e["ev"] == "waitret" && e["w"] == nil {
+			r++
+		}
+	}
+	return r
 }
 
 func (p *poolRun) noteLocked(e Event) {
@@ -304,6 +319,15 @@ func runPoolScenario(cfg PoolCfg, steps []poolStep, expKeys []evKey, seed int64)
 				default:
 				}
 			}
+			if cfg.SelfWait && int(atomic.LoadInt32(&p.selfWaiting)) < cfg.S*p.curRound() {
+				// no task is released before every submitter of the round is inside Wait
+				select {
+				case <-time.After(300 * time.Microsecond):
+				case <-p.done:
+					return
+				}
+				continue
+			}
 			p.mu.Lock()
 			var pick int = -1
 			var keys []int
@@ -344,7 +368,8 @@ func runPoolScenario(cfg PoolCfg, steps []poolStep, expKeys []evKey, seed int64)
 			}
 		}()
 		for r := 1; r <= cfg.Rounds; r++ {
-			var join sync.WaitGroup
+			var join, subsDone sync.WaitGroup
+			subsDone.Add(cfg.S)
 			for s := 1; s <= cfg.S; s++ {
 				join.Add(1)
 				go func(r, s int) {
@@ -357,6 +382,17 @@ func runPoolScenario(cfg PoolCfg, steps []poolStep, expKeys []evKey, seed int64)
 						p.log(Event{"ev": "submit", "task": t, "sub": s})
 						pool.Submit(body(t))
 						p.log(Event{"ev": "submitret", "task": t, "sub": s})
+					}
+					if cfg.SelfWait {
+						// this goroutine waits for the pool itself; the tasks stay parked until every submitter
+						// is waiting, so the Waits overlap.  All submissions of the round happen before the first
+						// Wait (sync.WaitGroup: an Add that meets a zero counter must happen before Wait).
+						subsDone.Done()
+						subsDone.Wait()
+						p.log(Event{"ev": "waitcall", "round": r, "w": s})
+						atomic.AddInt32(&p.selfWaiting, 1)
+						pool.Wait()
+						p.log(Event{"ev": "waitret", "round": r, "w": s})
 					}
 				}(r, s)
 			}
@@ -603,6 +639,23 @@ func init() {
 				case "small":
 					cfg.W = r.Intn(5) - 1
 					cfg.Per = r.Intn(5)
+				case "selfwait": // several goroutines submit and then wait themselves: overlapping Waits
+					cfg.W = r.Intn(4)
+					cfg.S = 2 + r.Intn(3)
+					cfg.Per = 1 + r.Intn(2)
+					cfg.Rounds = 1 + r.Intn(2)
+					cfg.Sched = "random"
+					cfg.SelfWait = true
+					nw := cfg.W
+					if nw < 1 {
+						nw = 1
+					}
+					if cfg.S*cfg.Per > 3*nw {
+						cfg.Per = 1 // every Submit must be able to return while all tasks are parked
+					}
+					if cfg.S > 3*nw {
+						cfg.S = 3 * nw
+					}
 				case "earlyclose": // Close without Wait: conformance with the specification only, no verdict
 					cfg.W = r.Intn(4)
 					cfg.S = 1 + r.Intn(2)
